@@ -675,7 +675,7 @@ def run(repo, chk):
     from ..cfg import CFG
     gpp = CFG(pp.node, lambda s_: isinstance(s_, (ast.Raise, ast.Assert)))
     heads = [n for n in gpp.nodes if n.kind == "test" and isinstance(n.stmt, ast.While)]
-    progress = [n for n in gpp.nodes if n.kind == "stmt" and n.stmt is not None and any(isinstance(c, ast.Call) and (norm(c.func) == "_next" or norm(c.func) == "stack.pop") for c in ast.walk(n.stmt))
+    progress = [n for n in gpp.nodes if n.kind == "stmt" and n.stmt is not None and any(isinstance(c, ast.Call) and norm(c.func) in (f"{pp.node.args.args[1].arg}.pop", "stack.pop") for c in ast.walk(n.stmt))
                 and any(n.stmt is x for h in heads for x in ast.walk(h.stmt))]
     # no way around the loop without taking a token or popping the handle stack; and the loop can be left by a return
     ok = len(heads) == 1 and bool(progress) and not any(gpp.path_exists(m, heads[0], avoid=progress, labels=("n", "t", "f")) for m, lab in heads[0].succ if lab == "t") \
